@@ -468,6 +468,9 @@ class Facts:
             self.adts.update(c.adts)
             self.impls.extend(c.impls)
             self.traits.update(c.traits)
+        # undo "extract a private helper" relative to the reference function inventory (engine/normalize.py)
+        from . import normalize
+        self.inlined = normalize.normalise(self, Fn)
 
     def fn(self, key):
         f = self.fns.get(key)
